@@ -125,13 +125,16 @@ def main(argv):
             else:
                 apply_mutant(repo, m)
             suite = run_suite(repo) if with_suite else (None, "")
-            res = pool_findings(repo, os.path.join(d, "work"), extra_props=m.get("extra", m["breaks"]))
+            res = pool_findings(repo, os.path.join(d, "work"), extra_props=m.get("extra", m["breaks"] or (["C10", "C13", "C20"] if m.get("benign") else [])))
         finally:
             shutil.rmtree(d, ignore_errors=True)
         found = sorted(res["findings"].keys())
         missed = [p for p in m["breaks"] if p not in found]
         unexpected = [p for p in found if p not in m["breaks"] and p not in m.get("also", [])]
         status = "caught" if not missed else "MISSED"
+        if m.get("benign"):     # a change no property forbids: any finding is a false alarm (conformance drift is expected and fine)
+            status = "quiet" if not found else "FALSE-ALARM"
+            missed = found
         if missed:
             bad += 1
         print("%-28s %-7s breaks=%s found=%s%s drift=%d%s %.0fs" % (
